@@ -261,7 +261,12 @@ impl Ctx {
         std::env::var("VERIF_SEED").ok().and_then(|s| s.trim().parse::<i64>().ok()).unwrap_or(0)
     }
     pub fn cases(&self, quick: u32, thorough: u32) -> u32 {
-        ((self.tier.pick(quick, thorough) as f64) * self.scale).max(1.0) as u32
+        // quick case counts in the property modules are per-unit; the quick tier runs 8 units
+        let base = match self.tier {
+            Tier::Quick => quick as f64 * 8.0,
+            Tier::Thorough => thorough as f64,
+        };
+        (base * self.scale).max(1.0) as u32
     }
 
     /// Resolve a verdict against the known-findings file: a Known verdict whose finding is not
